@@ -140,6 +140,7 @@ type Model struct {
 	fail           *vh.Failure
 	curOp          int
 	SynPayloadLate bool // some SYN carrying payload arrived after its half's position was fixed
+	Concurrent     bool // several assemblers / a concurrent flusher: a flush may be in progress at any time
 }
 
 // NewModel creates the model for a case.
@@ -258,7 +259,7 @@ func (m *Model) Deliver(h *Half, d Delivery) {
 		return
 	}
 	h.deliveries++
-	inForced := m.inFlush || m.limits
+	inForced := m.inFlush || m.limits || m.Concurrent
 	// --- kept bytes (reassembly) ---
 	if m.Kind == "reassembly" {
 		if len(d.Saved) > 0 {
